@@ -53,6 +53,16 @@ def run(ch, config, res):
     srv = world.server
     srv.order_variation = True
     srv.cap_variation = True
+    # each connection is offered VERSION (RENAMESCRIPT, CHECKSCRIPT) or not, independently: what one Client object learnt
+    # about its server must not leak into another
+    conn_version = {}
+
+    def version_hook(conn):
+        with ch.abs_scope("conn-version#%d" % conn.id):
+            v = version if nclients == 1 else not ch.srv.flag("noversion", 1, 2)
+        conn_version[conn.id] = v
+        return v
+    srv.version_hook = version_hook
     srv.text_lit_variation = True
     # in a third of the sessions status replies take every RFC 5804 shape (codes, multi-line literal texts with
     # look-alike lines): their content is C09's business, a reply left half-read is a desynchronisation = ours
@@ -140,12 +150,14 @@ def run(ch, config, res):
                         body += "#" + "x" * 130 + "\r\n"
                     args = (gen.name(wl, "name"), body)
                 elif op == "checkscript":
-                    if not version:
+                    cc = getattr(getattr(client, "sock", None), "_conn", None)
+                    if not (conn_version.get(cc.id, version) if cc is not None else version):
                         continue
                     args = ("keep;\r\n" if not wl.flag("invalid", 1, 3) else "INVALID\r\n",)
                 elif op == "renamescript":
                     args = (gen.name(wl, "name"), gen.name(wl, "name2"))
-                    if not version:
+                    cc = getattr(getattr(client, "sock", None), "_conn", None)
+                    if not (conn_version.get(cc.id, version) if cc is not None else version):
                         srv.fault_weights = [1, 0, 0, 0, 0, 0, 0, 0]
                 elif op == "havespace":
                     args = (gen.name(wl, "name"), [10, 100, 125, 250][wl.int("size", 4)])
@@ -166,7 +178,12 @@ def run(ch, config, res):
                 fail("C15.mismatch", "%s: %r against a conforming server (replies %r)" % (label, o, [r.raw for r in recs]))
                 break
             last = recs[-1] if recs else None
-            emulated = op == "renamescript" and not version
+            cconn = getattr(getattr(client, "sock", None), "_conn", None)
+            cver = conn_version.get(cconn.id, version) if cconn is not None else version
+            emulated = op == "renamescript" and not cver
+            if [n for n in srv.notes if n[1] == o.call_id]:
+                fail("C15.server-violation", "%s: %s" % (label, [n for n in srv.notes if n[1] == o.call_id][0][2]))
+                break
             if emulated:
                 old, new = (a.encode() for a in args)
                 sb, ab = before
